@@ -88,6 +88,14 @@ CHECKS = {
         "every text up to the bound is loaded and re-exported the same way; field validation for all contents.",
    note="Trusted: z3; models of render_bytes/join_bytes/BytesIO (validated against the real helpers each run); the dict model. The "
         "inductive argument needs the representation invariant stated in the evidence. Outside: file-system I/O, longer names."),
+ "C17": dict(engine="E1-zshadow", category="other", design_ref="DESIGN.md §4 C17",
+   technique="path exploration of the real identify() chain of every exported context over symbolic hash shapes (z3 decides each earlier scheme's pattern)",
+   text="For every exported context and each scheme B with a backend on this host, a string of B's output shape (from real output "
+        "per ident/variant, up to 6 varying positions symbolic over B's alphabet) runs through the real ctx.identify(); on every "
+        "feasible path the answer must be B, and the generated samples verify through the context. Registry names vs objects are "
+        "finite and checked directly.",
+   note="Trusted: z3; the C08 text environment (SRegex, str/bytes shadows). Catch-all schemes are only checked in the shadowing "
+        "direction. Outside: scheme lists of other hosts; argon2 (no backend)."),
  "C19": dict(engine="E3-schedule-bmc", category="model_checking", design_ref="DESIGN.md §3 E3, §4 C19",
    technique="z3 bounded model checking of all thread schedules over event sequences extracted from the current source; sat schedules replayed with a sys.settrace line scheduler",
    text="The shared-state events of LazyCryptContext, LazyBase64Engine and the multi-backend auto-load stub are extracted from the "
